@@ -79,6 +79,12 @@ class Engine(EngineBase, ExprMixin, StmtMixin, CallMixin, PreludeMixin, FoldMixi
             st.assume(asz(truthy(self.ev1(self.parse_spec(atext), st, af))))
             st.env = saved_env
             self.stats['assumed_contracts'].add('axiom:' + aname)
+        # a spec function declared with result kind Name denotes a name: never None (names are positive atoms)
+        from core import KName as _KName
+        for uname, (uf, _uks, urk) in self.reg.ufuncs.items():
+            if urk is _KName and uf.arity() > 0:
+                bvs = [z3.Const(fresh_name('u'), uf.domain(i_)) for i_ in range(uf.arity())]
+                st.assume(z3.ForAll(bvs, uf(*bvs) > 0, patterns=[uf(*bvs)]))
         sf = self.spec_frame(mod, qual, cname, env)
         sf.closure.update(fr.closure)
         saved = st.env
@@ -402,6 +408,15 @@ def _strabs(text):
         body = _abstract_concat(body)       # concatenation as an uninterpreted binary function (weaker: sound)
         if body is None:
             return None
+    extra_decl = ''
+    if '(str.from_int' in body or '(int.to.str' in body:
+        body = body.replace('(str.from_int', '(strfromint!').replace('(int.to.str', '(strfromint!')
+        extra_decl += '(declare-fun strfromint! (Int) String)\n'      # uninterpreted: weaker, sound
+    if '(str.to_int' in body or '(str.to.int' in body:
+        body = body.replace('(str.to_int', '(strtoint!').replace('(str.to.int', '(strtoint!')
+        extra_decl += '(declare-fun strtoint! (String) Int)\n'
+    if extra_decl:
+        body = body.replace('(set-info :status unknown)', '(set-info :status unknown)\n' + extra_decl, 1)
     if _STR_OPS.search(body) or 'RegLan' in body or 'Seq ' in body:
         return None
     body = re.sub(r'\bString\b', 'StrAtom', body)
